@@ -417,8 +417,16 @@ class Actor:
             self.call("set_loop_outputs", self.b.set_loop_outputs, *wires)
         else:
             self.call("set_outputs", self.b.set_outputs, *wires)
-        self.closed = True
         self.nodes.append(self.b.output_node)
+        if sim.features.get("late_ops", True) and self.tmodel is None and ch.coin(1, 10, "op-added-after-the-outputs-were-set"):
+            # the order of independent calls is the client's: an operation whose results nobody uses may as well be
+            # added after set_outputs (its inputs may come from an enclosing region)
+            t = T()
+            w = self.find(t.B)
+            if w is not None:
+                self.add_op(t.Not, [w], [t.B], None, "Not")
+                sim.ctx.probe("op_added_after_outputs_set" + ("_nonlocal_input" if w.owner is not self else ""))
+        self.closed = True
         out_tys = [w.ty for w in outs]
         if self.parent is not None and self.kind in ("dfg", "loop"):
             self.parent.open_children -= 1
@@ -655,6 +663,13 @@ class BuilderSim:
         _EMPTY_ROW_SUMS[0] = ch if self.features.get("empty_row_sums", ch.coin(1, 2, "f-empty-row-sums")) else None
         self.max_depth = 1 + ch.draw(4, "max-depth")
         self.max_row_width = ch.draw(4, "max-row")
+        # size class (swarm): some programs are several times longer, nest deeper and use wide rows
+        self.large = bool(self.features.get("large", root_inputs is None and ch.coin(1, 25, "size-class-large")))
+        if self.large:
+            self.max_steps = self.max_steps * 3 + 80
+            self.max_depth = 5 + ch.draw(4, "max-depth-large")
+            self.max_row_width = 6 + ch.draw(6, "max-row-large")
+            ctx.probe("large_program")
         kinds = ["module", "dfg", "function", "cfg", "conditional", "tailloop", "tracked"]
         self.root_kind = root_kind or kinds[ch.weighted([8, 2, 2, 1, 1, 1, 1], "root-kind")]
         self.root_actor = None
@@ -753,7 +768,7 @@ class BuilderSim:
         return mk_sum(rows)
 
     def gen_row(self, maxn, linear_ok=True, synth_only=True):
-        n = self.ctx.ch.draw(min(maxn, self.max_row_width) + 1, "row-len")
+        n = self.ctx.ch.draw(min(maxn * 4 if self.large else maxn, self.max_row_width) + 1, "row-len")
         return [self.gen_type(0, linear_ok, synth_only) for _ in range(n)]
 
     def const_value(self, ty):
@@ -1043,7 +1058,7 @@ class BuilderSim:
         if op == "Not":
             a.add_op(t.Not, [a.find(t.B)], [t.B], md, "Not")
         elif op == "Fanout":
-            n = ch.draw(4, "fanout-n")
+            n = ch.draw(4, "fanout-n") + (ch.draw(10, "fanout-n-large") if self.large else 0)
             a.add_op(t.fanout(n), [a.find(t.B)], [t.B] * n, md, "Fanout")
             self.ctx.probe("row_polymorphic_ext_op")
             if n != 1:
